@@ -75,6 +75,8 @@ def replay(prop, res, f, repo, index, outbase, gen, sp, max_n=3, timeout=240):
         return replay_codec(prop, res, f, repo, outbase, gen, timeout)
     if target.startswith('loadBinaryEdgeList_1_NoLabel_'):
         return replay_loader(prop, res, f, repo, index, outbase, gen, sp, target, timeout)
+    if target in ('LDG_NoLabel__ctor_2', 'LUG_NoLabel__ctor_2'):
+        return replay_eseq(prop, f, repo, outbase, gen, sp, target, timeout)
     if target.startswith('findAllVertexPredecessors'):
         return replay_findall(prop, f, repo, outbase, timeout)
     if target.startswith('getSubgraph_2_') or target.startswith('findVertexPredecessors_2_'):
@@ -351,6 +353,73 @@ int main() {
     found = code != 0
     return found, header + '// result: %s\n/* output of the replay on the real code:\n%s\n*/\n%s' % (
         'FAILING INPUT FOUND (exit %d)' % code if found else 'no failing input among all simple digraphs with <= 4 vertices and 400000 with 5',
+        '\n'.join(out.strip().split('\n')[-20:]).replace('*/', '* /'), src)
+
+
+def replay_eseq(prop, f, repo, outbase, gen, sp, target, timeout):
+    """Graph(const std::list<Edge> &): every list of <= 3 pairs over 4 vertex indices, every (G_P,G_Q); the
+    clauses are evaluated on alpha(list) = classified entry counts and alpha(constructed graph)"""
+    info = classify(target)
+    cl = f.get('clause')
+    clauses = sp.contracts[target]
+    own = cl is not None and cl.get('fn') == target and cl.get('kind') == 'ensures'
+    oracle = [c for c in clauses if c.kind == 'ensures' and (c.src == cl['src'] if own else (c.enabled(prop) and '__CPROVER_is_fresh' not in c.expr))]
+    pre = [c for c in clauses if c.kind == 'requires' and c.enabled(prop) and '__CPROVER_is_fresh' not in c.expr]
+    L = ['#include "native.hpp"', '#include "view.h"', '#include <list>', 'typedef %s G;' % info['graph'], 'typedef %s Abs;' % info['abs'],
+         '#define __CPROVER_is_fresh(p, n) 1', 'static const char *bg_failed = 0;',
+         'int main() {', '  long calls = 0; int rc = 0; const int V = 4, MAXLEN = 3;', '  bg_install_handlers();',
+         '  for (int len = 0; len <= MAXLEN && !rc; ++len) {',
+         '    long combos = 1; for (int k = 0; k < len; ++k) combos *= V * V;',
+         '    for (long c = 0; c < combos && !rc; ++c) {',
+         '      std::list<BaseGraph::Edge> seq; long cc = c; for (int k = 0; k < len; ++k) { unsigned a = cc % V; cc /= V; unsigned b = cc % V; cc /= V; seq.push_back({a, b}); }',
+         '      for (VertexIndex p = 0; p <= (VertexIndex)V && !rc; ++p) for (VertexIndex q = 0; q <= (VertexIndex)V && !rc; ++q) {',
+         '        G_P = p; G_Q = q; bg_exc = 0; bg_scratch_row.valid = 0; bg_scratch_row.owner = 0; bg_cur_adj = 0; bg_ghost_frontier.a = 0;',
+         '        bg_edgeseq es = {0, 0, 0, 0};',
+         '        for (auto &e : seq) { if (e.first == p && e.second == q) es.nPQ++; else if (p != q && e.first == q && e.second == p) es.nQP++;',
+         '          else { es.nOther++; if (e.first + 1 > es.bound) es.bound = e.first + 1; if (e.second + 1 > es.bound) es.bound = e.second + 1; } }',
+         '        const bg_edgeseq *edgeSequence = &es;']
+    for c in pre:
+        L.append('        if (!(%s)) continue; // requires %s' % (cpp_clause(c.expr, 'NoLabel').replace('bg_self', 'bg_nothing'), c.src))
+    L += ['        ++calls;',
+          '        G *gp = 0; try { gp = new G(seq); } BG_CATCH_ALL',
+          '        if (!gp) gp = new G(0);',
+          '        Abs post_abs; Cells<NoLabel> post_cells; alpha(*gp, post_abs, post_cells); Abs *bg_self = &post_abs;']
+    for c in oracle:
+        L.append('        if (!(%s)) bg_failed = "%s %s";' % (cpp_clause(c.expr, 'NoLabel'), c.name, c.src))
+    L += ['        if (bg_failed) {',
+          '          printf("CLAUSE FALSE ON THE REAL CODE: %s\\n  call: Graph(std::list<Edge>{", bg_failed);',
+          '          for (auto &e : seq) printf(" (%u,%u)", e.first, e.second);',
+          '          printf(" })  observed at G_P=%u G_Q=%u  exception code=%d, size=%zu, edges=%zu\\n", p, q, bg_exc, gp->getSize(), gp->getEdgeNumber());',
+          '          rc = 1;', '        }', '        delete gp;', '      }', '    }', '  }',
+          '  printf("%ld constructions replayed\\n", calls);', '  return rc;', '}']
+    src = '\n'.join(L) + '\n'
+    cpp, exe = outbase + '.cpp', outbase + '.bin'
+    open(cpp, 'w').write(src)
+    cmd = ['g++', '-std=c++14', '-O1', '-w', '-fno-access-control', '-DBG_L=NoLabel', '-I', os.path.join(repo, 'include'),
+           '-I', os.path.join(ROOT, 'shim'), '-I', gen, '-I', os.path.join(ROOT, 'contracts'), '-I', HERE,
+           '-fsanitize=address,undefined', '-fno-sanitize-recover=all', '-D_GLIBCXX_DEBUG', '-D_GLIBCXX_ASSERTIONS', '-g', cpp, '-o', exe]
+    r = subprocess.run(cmd, stdout=subprocess.PIPE, stderr=subprocess.STDOUT, text=True)
+    header = '// native replay of %s\n// build: %s\n' % (f.get('key'), ' '.join(cmd).replace(gen, '<gen: bin/extract --out DIR>'))
+    if r.returncode != 0:
+        try:
+            os.remove(cpp)
+        except OSError:
+            pass
+        return False, header + '// replay did not compile:\n' + ''.join('// ' + l + '\n' for l in r.stdout.split('\n')[-30:]) + src
+    try:
+        r = subprocess.run([exe], stdout=subprocess.PIPE, stderr=subprocess.STDOUT, text=True, timeout=timeout,
+                           env=dict(os.environ, ASAN_OPTIONS='detect_leaks=0:handle_segv=0:handle_abort=0:handle_sigbus=0'))
+        out, code = r.stdout, r.returncode
+    except subprocess.TimeoutExpired:
+        out, code = 'TIMEOUT', 0
+    for pth in (exe, cpp):
+        try:
+            os.remove(pth)
+        except OSError:
+            pass
+    found = code != 0
+    return found, header + '// result: %s\n/* output of the replay on the real code:\n%s\n*/\n%s' % (
+        'FAILING INPUT FOUND (exit %d)' % code if found else 'no failing input among all lists of <= 3 pairs over 4 indices',
         '\n'.join(out.strip().split('\n')[-20:]).replace('*/', '* /'), src)
 
 
